@@ -42,6 +42,15 @@ OUTSIDE = ['nesting deeper than one level inside params/result/data', 'converse 
 ASSUMPTIONS = ['CPython 3.12 + CrossHair proxy semantics; each path re-validated on its concrete witness in the plain interpreter']
 BUDGET = {'quick': 40.0, 'thorough': 120.0}
 
+MANIFEST = dict(
+    text="Bounded symbolic model checking of the real from_json/append/extend code: for every skeleton of the per-member JSON-kind alphabet "
+         "(full product in the thorough tier) all integer/string/bool/float leaves are z3 variables and CrossHair enumerates the path tree to exhaustion; "
+         "oracle: only DeserializationError/IdentityError may escape, acceptance implies structural validity, failed append/extend leaves the batch and its id set unchanged. "
+         "A confirmed obligation holds for ALL leaf values of that skeleton; skeletons outside the listed alphabets are outside the claim.",
+    ref='5 C06',
+    note="Bounds: nesting depth 1 inside params/result/data; batches <= 2 (quick) / 3 (thorough) elements; histories <= 3 / 4 operations; two symbolic string ids bounded to length 2 / 3.",
+)
+
 
 def setup():
     from pjrpc.common import exceptions as ex
